@@ -31,7 +31,11 @@ WORLDS = {
     "x4": [("x", (4,), 0, False), ("y", (3,), 5, False)],
     "x23": [("x", (2, 3), 0, False), ("y", (3,), 7, False)],
 }
-BOUNDS = {"quick": [("x4", 3, 1), ("x23", 2, 1), ("x4ro", 3, 1)], "thorough": [("x4", 3, 2), ("x23", 3, 1), ("x4", 4, 1), ("x4ro", 4, 1)]}
+# worlds that start from a pre-built view family (prefix statements are part of every history of that world)
+PREFIX = {"x4vv": [("view", "v", "x", "all"), ("view", "vv", "v", "all")]}
+WORLDS["x4vv"] = [("x", (4,), 0, False), ("y", (3,), 5, False)]
+CFG_VV = dict(CFG, views=("s1",), ops1=("mul2",), set_idx=("s1",), iops=("iadd",), outs=(), leaf_backward=True)
+BOUNDS = {"quick": [("x4", 3, 1), ("x23", 2, 1), ("x4ro", 3, 1), ("x4vv", 3, 1)], "thorough": [("x4", 3, 2), ("x23", 3, 1), ("x4", 4, 1), ("x4ro", 4, 1), ("x4vv", 4, 1)]}
 
 FAULTS = {
     # name -> (code, callable(impl, t), applicable(shape))
@@ -44,6 +48,7 @@ FAULTS = {
     "f_iadd": ("{0} += np.zeros(7)", lambda im, t: t.__iadd__(np.zeros(7)), lambda s: True),
     "f_out": ("mg.multiply({0}, np.zeros(7), out={0})", lambda im, t: im.mg.multiply(t, np.zeros(7), out=t), lambda s: True),
     "f_outdtype": ("mg.add({0}, 1.0, out={0}, dtype=np.int32)", lambda im, t: im.mg.add(t, 1.0, out=t, dtype=np.int32), lambda s: True),
+    "f_clip_out": ("mg.clip({0}, 1.0, np.ones(7), out={0})", lambda im, t: im.mg.clip(t, 1.0, np.ones(7), out=t), lambda s: True),
     "f_intconst": ("mg.add(mg.tensor([1]), mg.tensor([2]), constant=False)  # rejected after its forward pass",
                    lambda im, t: im.mg.add(im.ints[0], im.ints[1], constant=False), lambda s: True),
 }
@@ -142,6 +147,8 @@ def execute(init, h, seed, fault=None):
                 L = csad.terminal_all_impl(impl)
                 L.backward()
                 del L
+            elif st[0] == "backward":
+                impl.t[st[1]].backward()
             else:
                 impl.apply(st)
         except Exception as e:
@@ -179,7 +186,7 @@ def faults_at(model_shapes, live, ro_family=()):
     return out
 
 
-def check_history(init, h, seed, acc, nfaults):
+def check_history(init, h, seed, acc, nfaults, first_pos=0):
     """all single (and optionally double) fault insertions into h"""
     A = execute(init, h, seed)
     acc.inc("evaluations")
@@ -193,9 +200,11 @@ def check_history(init, h, seed, acc, nfaults):
     for i in range(len(h) + 1):
         ro = [i[0] for i in init if "ro" in [o for o in i[4:] if isinstance(o, str)]]
         pos.append((list(m.order), {n: m.shape(n) for n in m.order}, [n for n in m.order if m.fam[n] in ro]))
-        if i < len(h) and h[i][0] != "bwall":
+        if i < len(h) and h[i][0] not in ("bwall", "backward"):
             m.apply(tuple(h[i]))
     for p, (live, shapes, rofam) in enumerate(pos):
+        if p < first_pos:
+            continue
         for f, n in faults_at(shapes, [x for x in live if x != "y"], rofam):
             B = execute(init, h, seed, fault=(p, f, n))
             acc.inc("evaluations")
@@ -227,7 +236,13 @@ def enabled(m, cfg, out, nb):
     sts = explore.enabled(m, cfg, out)
     if nb == 0 and len(m.order) > 2:
         sts.append(("bwall",))
+        if cfg.get("leaf_backward"):
+            sts.append(("backward", "x"))  # x forgets its views, which stay connected to it
     return sts
+
+
+def cfg_of(wname):
+    return CFG_RO if wname == "x4ro" else (CFG_VV if wname == "x4vv" else CFG)
 
 
 def run_task(task):
@@ -235,15 +250,16 @@ def run_task(task):
     init = WORLDS[wname]
     acc = base.Acc()
     stack = [list(prefix)]
+    pre = list(PREFIX.get(wname, ()))
     while stack:
         h = stack.pop()
-        check_history(init, h, seed, acc, nfaults)
+        check_history(init, pre + h, seed, acc, nfaults, first_pos=len(pre))
         acc.inc("traces")
         acc.inc("transitions", 1 if h else 0)
         m = Model(init, seed=seed)
         nb = 0
-        for st in h:
-            if st[0] == "bwall":
+        for st in pre + h:
+            if st[0] in ("bwall", "backward"):
                 nb += 1
             else:
                 m.apply(tuple(st))
@@ -251,7 +267,7 @@ def run_task(task):
         if len(acc.samples) < 2 and len(h) == depth:
             acc.samples.append("; ".join("L.backward()" if s[0] == "bwall" else render(s) for s in h) + "  x every (position, failing statement)")
         if len(h) < depth:
-            for st in reversed(enabled(m, CFG_RO if wname == "x4ro" else CFG, "t%d" % len(h), nb)):
+            for st in reversed(enabled(m, cfg_of(wname), "t%d" % len(h), nb)):
                 stack.append(h + [st])
     return acc
 
@@ -262,14 +278,18 @@ def plan(tier, seed):
         init = WORLDS[wname]
         m = Model(init, seed=seed)
         tasks.append((wname, [], 0, nf, seed))
-        cfg = CFG_RO if wname == "x4ro" else CFG
+        cfg = cfg_of(wname)
+        for pst in PREFIX.get(wname, ()):
+            m.apply(pst)
         for st in enabled(m, cfg, "t0", 0):
             m1 = Model(init, seed=seed)
-            if st[0] != "bwall":
+            for pst in PREFIX.get(wname, ()):
+                m1.apply(pst)
+            if st[0] not in ("bwall", "backward"):
                 m1.apply(st)
             tasks.append((wname, [st], 1, nf, seed))
             if depth >= 2:
-                for st2 in enabled(m1, cfg, "t1", 1 if st[0] == "bwall" else 0):
+                for st2 in enabled(m1, cfg, "t1", 1 if st[0] in ("bwall", "backward") else 0):
                     tasks.append((wname, [st, st2], depth, nf, seed))
     return dict(
         tasks=tasks,
@@ -328,7 +348,7 @@ def finalize(v):
             c = h[:i] + h[i + 1:]
             pp = p - 1 if i < p else p
             seq = c[:pp] + [("fail", n)] + c[pp:]
-            if not well_formed(init, [s for s in seq if s[0] != "bwall"]):
+            if not well_formed(init, [s for s in seq if s[0] not in ("bwall", "backward")]):
                 continue
             try:
                 ff = fails(c, pp)
@@ -340,6 +360,9 @@ def finalize(v):
                 break
     ff = fails(h, p)
     lines = ["L.backward()  # weighted sum of all live tensors" if s[0] == "bwall" else render(s) for s in h]
+    for wn, pre in PREFIX.items():
+        if case.get("world") == wn:
+            pass
     lines.insert(p, "try: %s\nexcept Exception: pass   # <- the failing statement" % FAULTS[f][0].format(n))
     return dict(
         case=dict(init=init, history=h, seed=seed, fault=(p, f, n)),
